@@ -214,8 +214,9 @@ theorem snapEnd_inv (s : SM) (h : ChainInv s) (o : Outcome) : ChainInv (snapEnd 
       | failBefore => exact keep
       | failAfter =>
         simp only
-        exact ⟨h.restore, h.resolves, (fun hf => by cases hf), (fun _ _ _ _ hp' => by cases hp'), (fun _ _ hp' => by cases hp'),
-          (fun _ hp' => by cases hp')⟩
+        have := restart_inv _ keep
+        cases hrs : restartSM { s with pend := none } with
+        | mk s' r => rw [hrs] at this; exact this
     | stale c =>
       have keep : ChainInv { s with pend := none } :=
         ⟨h.restore, h.resolves, h.staged, (fun _ _ _ _ hp' => by cases hp'), (fun _ _ hp' => by cases hp'),
@@ -250,6 +251,24 @@ theorem snapEnd_inv (s : SM) (h : ChainInv s) (o : Outcome) : ChainInv (snapEnd 
         | failBefore => exact raise
         | failAfter => exact raise
 
+theorem snapBeginStageFails_inv (s : SM) (h : ChainInv s) : ChainInv (snapBeginStageFails 3 s).1 := by
+  unfold snapBeginStageFails
+  split
+  · exact h
+  · split
+    · exact snapBegin_inv s h
+    · split
+      · exact h
+      · rename_i hp _ _
+        have hpn : s.pend = none := by
+          cases hs : s.pend with
+          | none => rfl
+          | some p => simp [hs] at hp
+        have h33 : (3 : Nat) ≥ 3 := by decide
+        simp only [h33, if_true]
+        exact ⟨h.restore, h.resolves, (fun hf => by cases hf), (fun _ _ _ _ hp' => by simp only [hpn] at hp'; cases hp'),
+          (fun _ _ hp' => by simp only [hpn] at hp'; cases hp'), (fun _ hp' => by simp only [hpn] at hp'; cases hp')⟩
+
 theorem snapshot_inv (s : SM) (h : ChainInv s) (o : Outcome) : ChainInv (snapshot 3 s o).1 := by
   unfold snapshot
   split
@@ -274,6 +293,7 @@ theorem step_inv (s : SM) (h : ChainInv s) (op : Op) : ChainInv (step 3 s op).1 
     simp only [step]
     exact ⟨h.restore, h.resolves, h.staged, h.pendFull, h.pendInc, h.pendStale⟩
   | snapBegin => exact snapBegin_inv s h
+  | snapBeginStageFails => exact snapBeginStageFails_inv s h
   | snapEnd o => exact snapEnd_inv s h o
   | snapshot o => exact snapshot_inv s h o
   | load c =>
